@@ -388,7 +388,11 @@ fn record_rewrites(
     }
 
     // Update arguments to successor blocks (i.e., PHI args).
-    for BranchToWithArgs { block: succ, .. } in node.successors(context) {
+    // Note that both edges of a conditional branch may lead to the same block (simplify-cfg
+    // produces that), so the edge is identified by its position, not by its target.
+    for (edge_idx, BranchToWithArgs { block: succ, .. }) in
+        node.successors(context).into_iter().enumerate()
+    {
         let args: Vec<_> = succ.arg_iter(context).copied().collect();
         // For every arg of succ, if it's in phi_to_local,
         // we pass, as arg, the top value of local
@@ -407,7 +411,21 @@ fn record_rewrites(
                 };
 
                 modified = true;
-                let params = node.get_succ_params_mut(context, &succ).unwrap();
+                let params = match node.get_terminator_mut(context).map(|term| &mut term.op) {
+                    Some(InstOp::ConditionalBranch {
+                        true_block,
+                        false_block,
+                        ..
+                    }) => {
+                        if edge_idx == 0 {
+                            &mut true_block.args
+                        } else {
+                            &mut false_block.args
+                        }
+                    }
+                    Some(InstOp::Branch(to_block)) => &mut to_block.args,
+                    _ => unreachable!("a block with successors ends in a branch"),
+                };
                 params.push(new_val);
             }
         }
